@@ -116,7 +116,7 @@ def units_from_text(template):
         lab = bool(re.match(r'^([A-Za-z][A-Za-z0-9]*:|\d+\b)', text)) and not up.startswith(('CASE', 'ELSE:'))
         body = re.sub(r'^([A-Za-z][A-Za-z0-9]*:|\d+)\s*', '', text) if lab else text
         bup = body.upper()
-        data = bup.startswith('DATA')
+        data = bool(re.match(r'^DATA\b', bup))
         if re.match(r'^IF\b.*\bTHEN\b\s*\S', bup) and not bup.rstrip().endswith('THEN'):
             k = 'ifline'
         elif data or not body:
@@ -161,7 +161,7 @@ def case_style(text, style, salt, data=False):
         return WORD_RE.sub(word, p)
     if data:
         # only the keyword: unquoted DATA items are case-sensitive content
-        m = re.match(r'^(\s*(?:[A-Za-z][A-Za-z0-9]*:|\d+)?\s*)(DATA)(.*)$', text, re.I | re.S)
+        m = re.match(r'^(\s*(?:[A-Za-z][A-Za-z0-9]*:|\d+)?\s*)(DATA\b)(.*)$', text, re.I | re.S)
         if m:
             return m.group(1) + piece(m.group(2)) + m.group(3)
         return text
